@@ -29,6 +29,15 @@ Definition sleb (a b : string) : bool := String.leb a b.
 (* sort.Slice(xs, func(i, j) { return key(xs[i]) < key(xs[j]) }) *)
 Definition leb_by {A} (key : A -> string) (a b : A) : bool := sleb (key a) (key b).
 
+(* lexicographic order on (package, object, field) triples: the `less` of FieldsSetDefault's sort.Slice *)
+Definition cmp3 (a b : string * string * string) : comparison :=
+  let '(p1, o1, f1) := a in let '(p2, o2, f2) := b in
+  match String.compare p1 p2 with
+  | Eq => match String.compare o1 o2 with Eq => String.compare f1 f2 | c => c end
+  | c => c
+  end.
+Definition leb3 (a b : string * string * string) : bool := match cmp3 a b with Gt => false | _ => true end.
+
 (* ---- Go maps as finite functions; writes and deletes keyed by a key ---- *)
 Definition gmap (V : Type) := string -> option V.
 Definition gempty {V} : gmap V := fun _ => None.
